@@ -107,6 +107,7 @@ def gen_cases(tier, seed):
                 pts.append([float(v) for v in P + u * np.sqrt(tt / (a + b))])
             cases.append({"shells": shells, "points": pts, "charges": [1.0, -1.5, 2.0],
                           "classes": ["boys-window", "boysT:%d" % T, "l:%d,%d" % (la, lb), "nsh:2", "nq:3", "q:generic"], "cost": 80})
+    cases += bases.dup_variants("C03", seed, tier, cases, 11)  # one shell listed twice as the same object
     return cases
 
 
